@@ -123,12 +123,13 @@ def rand_script(rng, n, user):
             ev = dict(id=s, st=rng.choice(["NEW", "NEW", "NEWRESOLVE"]), circ=0,
                       tgt=rng.choice(["h1.example:80", "h2.example:443"]), src=rng.choice(["127.0.0.1:4001", "127.0.0.1:4002"]))
             ts[s] = ev
+            taddr.pop(s, None)
             closing_s.discard(s)
             script.append(dict(a="StreamNew", ev=ev))
             if phase == "live":
                 live_s.add(s)
         elif choice < 0.78:
-            ss = [s for s, e in ts.items() if e["circ"] == 0 and e["st"] in ("NEW", "DETACHED")]
+            ss = [s for s, e in ts.items() if e["circ"] == 0 and e["st"] in ("NEW", "DETACHED", "REMAP")]
             cs = [c for c, e in tc.items() if e["st"] == "BUILT"]
             if not ss or not cs:
                 continue
@@ -136,12 +137,14 @@ def rand_script(rng, n, user):
             ts[s] = dict(ts[s], st="SENTCONNECT", circ=c, src="")
             script.append(dict(a="SentConnect", ev=dict(ts[s])))
         elif choice < 0.83:
-            ss = [s for s, e in ts.items() if e["st"] == "SENTCONNECT"]
+            ss = [s for s, e in ts.items() if e["st"] in ("NEW", "SENTCONNECT", "REMAP")]
             if not ss:
                 continue
             s = rng.choice(ss)
+            addr = rng.choice([a for a in ("10.9.8.7", "10.9.8.8") if a != taddr.get(s)])
+            taddr[s] = addr
             ts[s] = dict(ts[s], st="REMAP", src="")
-            script.append(dict(a="Remap", ev=dict(ts[s], tgt="10.9.8.7")))
+            script.append(dict(a="Remap", ev=dict(ts[s], tgt=addr)))
         elif choice < 0.89:
             ss = [s for s, e in ts.items() if e["st"] in ("SENTCONNECT", "REMAP") and e["circ"]]
             if not ss:
@@ -169,7 +172,7 @@ def rand_script(rng, n, user):
     return script
 
 
-closing_c, closing_s, failed_c = set(), set(), {}
+closing_c, closing_s, failed_c, taddr = set(), set(), {}, {}
 
 
 def strip(t):
@@ -177,7 +180,7 @@ def strip(t):
 
 
 def run(pid, tier, seed):
-    global closing_c, closing_s, failed_c
+    global closing_c, closing_s, failed_c, taddr
     rep = common.Report(pid, tier, seed)
     rep.assumptions = list(ASSUME)
     for name in (["MC_%s_quick" % pid] if tier == "quick" else ["MC_%s_quick" % pid, "MC_%s_thorough" % pid]):
@@ -197,7 +200,7 @@ def run(pid, tier, seed):
     rep.cov["tlc_generated_behaviours"] = len(sims)
     scripts = [("tlc", h) for h in sims]
     for i in range(200 if tier == "quick" else 2500):
-        closing_c, closing_s, failed_c = set(), set(), {}
+        closing_c, closing_s, failed_c, taddr = set(), set(), {}, {}
         scripts.append(("random", rand_script(rng, rng.choice([30, 80, 200]) if tier == "quick" else rng.choice([50, 200, 600]),
                                               user=(pid == "C08"))))
     traces, seen = [], set()
